@@ -5,6 +5,9 @@ use crate::dom::*;
 use crate::fam::run_list;
 use refmodel::vocab::*;
 
+/// thorough tier: the one-argument grid is refined once more (k/128 instead of k/32)
+pub static DENSER: std::sync::OnceLock<bool> = std::sync::OnceLock::new();
+
 fn spell(x: f64) -> String {
     let a = format!("{}", x.abs());
     if x < 0.0 || (x == 0.0 && x.is_sign_negative()) {
@@ -15,7 +18,7 @@ fn spell(x: f64) -> String {
 }
 
 /// k/8 for |k| <= 80, +-10^k, and a few edge values
-pub fn grid1(ev: Ev) -> Vec<String> {
+pub fn grid1(ev: Ev, dense: bool) -> Vec<String> {
     let mut g: Vec<String> = Vec::new();
     if ev == Ev::I64 {
         for i in -12i64..=100 {
@@ -39,8 +42,19 @@ pub fn grid1(ev: Ev) -> Vec<String> {
         g.dedup();
         return g;
     }
-    for k in -80i32..=80 {
-        g.push(spell(k as f64 / 8.0));
+    if dense {
+        let (steps, div) = if *DENSER.get().unwrap_or(&false) { (2560i32, 128.0) } else { (640i32, 32.0) };
+        for k in -steps..=steps {
+            g.push(spell(k as f64 / div));
+        }
+        for k in 1..=60i32 {
+            g.push(spell(20.0 + k as f64 * 2.5));
+            g.push(spell(-(20.0 + k as f64 * 2.5)));
+        }
+    } else {
+        for k in -80i32..=80 {
+            g.push(spell(k as f64 / 8.0));
+        }
     }
     for k in -6i32..=12 {
         let v = 10f64.powi(k);
@@ -74,7 +88,23 @@ pub fn grid_fact(ev: Ev) -> Vec<String> {
 }
 
 /// sub-grid for two-argument functions
-pub fn grid2(ev: Ev) -> Vec<String> {
+pub fn grid2(ev: Ev, dense: bool) -> Vec<String> {
+    let mut g = grid2_base(ev);
+    if dense && ev != Ev::I64 {
+        for t in ["0.75", "1.25", "3.5", "6", "12", "20", "0.01", "0.9", "1.1", "(-0.25)", "(-1.5)", "(-4)", "(-7)", "(-100)", "50", "0.3", "(-0.3)", "(-0.9)", "40", "41",
+            "(-40)", "(-41)", "66", "(-66)", "0.7", "(-0.7)"] {
+            g.push(t.to_string());
+        }
+    }
+    if dense && ev == Ev::I64 {
+        for t in ["6", "11", "12", "15", "31", "32", "33", "81", "125", "243", "255", "256", "4096", "(-3)", "(-9)", "(-64)", "(-1000)"] {
+            g.push(t.to_string());
+        }
+    }
+    g
+}
+
+fn grid2_base(ev: Ev) -> Vec<String> {
     if ev == Ev::I64 {
         let mut g: Vec<String> = ["0", "1", "2", "3", "4", "5", "7", "8", "9", "10", "16", "27", "63", "64", "100", "1000", "1024", "65536", "1000000", "4294967296",
             "1000000000000000", "1000000000000001", "(-1)", "(-2)", "(-7)", "(-8)", "(-27)"]
@@ -91,10 +121,10 @@ pub fn grid2(ev: Ev) -> Vec<String> {
         .collect()
 }
 
-pub fn c10_inputs(ev: Ev) -> Vec<String> {
+pub fn c10_inputs(ev: Ev, dense: bool) -> Vec<String> {
     let mut out: Vec<String> = Vec::new();
-    let g1 = grid1(ev);
-    let g2 = grid2(ev);
+    let g1 = grid1(ev, dense);
+    let g2 = grid2(ev, dense);
     let mut seen: Vec<&str> = Vec::new();
     for (name, f) in func_names(ev) {
         if seen.contains(name) {
@@ -156,7 +186,8 @@ pub fn c10_inputs(ev: Ev) -> Vec<String> {
 
 fn c10_dom<D: Dom>(cx: &RunCtx) {
     let kinds = [Kind::Value, Kind::WellFormedErr, Kind::MustErrOk];
-    let inputs = c10_inputs(D::EV);
+    let _ = DENSER.set(cx.tier == Tier::Thorough);
+    let inputs = c10_inputs(D::EV, true);
     run_list::<D>(cx, "E-FUNC name x argument grid", &inputs, &[D::default_at()], &kinds);
 }
 
